@@ -15,6 +15,7 @@ def build(tier, ctx):
     # staged merges are block-structured like F; bunched forks with mixed
     # OR are outside C02's exactness claim and are not included
     defs += pvcommon.extended_defs(0, staged=True, bunched=False)
+    defs += pvcommon.skeleton_defs(tier)
     return [{"name": nm, "defn": dsl.to_list(d), "k": 2,
              "pres": ["canonical"], "mode": "c02"}
             for nm, d in defs]
